@@ -118,23 +118,32 @@ def listing_case(h0, h1, h2, sf, ff, header):
         src.mkdir()
         snaps = []
         for i, code in enumerate((h0, h1, h2)):
-            st = [code % 3, code // 3]
             files = {}
-            for p in (0, 1):
-                f = src / f'p{p}.bin'
-                if st[p] == 0:
-                    if f.exists():
-                        f.unlink()
-                else:
-                    f.write_bytes(V[st[p]] + bytes([65 + i]) * (i if st[p] == 2 else 0))
-                    os.utime(f, ns=(10 ** 18 + i, 1_300_000_000_000_000_000 + 1_000_000_000 * (i * 2 + p)))
-                    files[str(f.resolve())] = f.read_bytes()
-            k = src / 'keep.bin'
-            k.write_bytes(b'constant')
-            os.utime(k, ns=(10 ** 18, 1_200_000_000_000_000_000))
-            files[str(k.resolve())] = b'constant'
+            if code == 'only-empty':
+                # a snapshot of nothing but one emptied file: it is recorded without any chunk reference
+                f = src / 'p0.bin'
+                f.write_bytes(b'')
+                os.utime(f, ns=(10 ** 18 + i, 1_300_000_000_000_000_000 + 1_000_000_000 * (i * 2)))
+                files[str(f.resolve())] = b''
+                paths = [f]
+            else:
+                st = [code % 3, code // 3]
+                for p in (0, 1):
+                    f = src / f'p{p}.bin'
+                    if st[p] == 0:
+                        if f.exists():
+                            f.unlink()
+                    else:
+                        f.write_bytes(V[st[p]] + bytes([65 + i]) * (i if st[p] == 2 else 0))
+                        os.utime(f, ns=(10 ** 18 + i, 1_300_000_000_000_000_000 + 1_000_000_000 * (i * 2 + p)))
+                        files[str(f.resolve())] = f.read_bytes()
+                k = src / 'keep.bin'
+                k.write_bytes(b'constant')
+                os.utime(k, ns=(10 ** 18, 1_200_000_000_000_000_000))
+                files[str(k.resolve())] = b'constant'
+                paths = [src]
             repo = fresh_repo(U_, 'A', be)
-            res = rt.MiniLoop().run_until_complete(repo.snapshot(paths=[src], note=None if i == 1 else f'note {i}'))
+            res = rt.MiniLoop().run_until_complete(repo.snapshot(paths=paths, note=None if i == 1 else f'note {i}'))
             snaps.append({'name': res.name, 'files': files, 'ts': res.data['utc_timestamp'], 'note': None if i == 1 else f'note {i}',
                           'data': res.data, 'chunks': res.chunks})
         # a snapshot of the independent user must never show up
@@ -210,12 +219,12 @@ def listing_case(h0, h1, h2, sf, ff, header):
 
 def e_listing(k: int) -> bool:
     """
-    pre: shard(9 * 9 * 3 * 5 * 5 * 2)[0] <= k < shard(9 * 9 * 3 * 5 * 5 * 2)[1]
+    pre: shard(9 * 9 * 4 * 5 * 5 * 2)[0] <= k < shard(9 * 9 * 4 * 5 * 5 * 2)[1]
     post: _
     """
-    h0, h1, h2, sf, ff, header = digits(k, [9, 9, 3, 5, 5, 2])
+    h0, h1, h2, sf, ff, header = digits(k, [9, 9, 4, 5, 5, 2])
     with NoTracing():
-        ok, msg = listing_case(h0, h1, [4, 0, 8][h2], sf, ff, header)
+        ok, msg = listing_case(h0, h1, [4, 0, 8, 'only-empty'][h2], sf, ff, header)
         tick('e_listing', [h0, h1, h2, SFILT[sf], FFILT[ff], header])
         if not ok:
             _say(h0, h1, h2, SFILT[sf], FFILT[ff], header, msg)
